@@ -353,6 +353,8 @@ func (r *vfC02MuxRun) body(addCloser func(func())) {
 			}
 			if op.S("kind") == "shortwrite" {
 				w.InjectShortWrite()
+			} else if op.S("kind") == "refusewrite" {
+				w.InjectRefuseWrite() // (the muxer treats every error of the connection as fatal: the session ends)
 			} else {
 				w.InjectRead(op.S("kind"))
 			}
